@@ -6,7 +6,7 @@ From Coq Require Import List String Ascii Bool Arith ZArith Permutation Sorted.
 From Helm Require Import Common.Assoc Common.SortUniq Text.Split Text.KindSort Text.KindSortProofs
   Text.SplitProofs Text.Classify Text.ClassifyProofs Text.Uninstall Text.UninstallProofs Text.Batch Text.BatchProofs Gen.KindOrder Gen.Events
   Common.Strs Text.Lower Text.LowerProofs Text.ClassifyU Text.ClassifyUProofs Text.UninstallU Text.Full Text.FullProofs Text.SpellingProofs
-  Gen.UnicodeLower Gen.C08Render.
+  Text.Cond Text.FullTie Gen.UnicodeLower Gen.C08Render.
 Import ListNotations.
 Local Open Scope string_scope.
 
@@ -649,40 +649,62 @@ Theorem C08_uninstall_order_any_lowercasing :
 Proof. exact delete_order_spec_g. Qed.
 Print Assumptions C08_uninstall_order_any_lowercasing.
 
-(* ---- what the model of renderResources was transcribed from is still what /repo says -------- *)
+(* ---- the model of renderResources is still what /repo does: Gen/C08Render.v ----------------------
+   The translator prints the call sites (buffer writes, file writes, NOTES text, deletion of
+   NOTES keys, post-renderer, os.Create / os.OpenFile, append in CRDObjects) with their path
+   conditions as boolean expressions over atoms, helpers followed, formats resolved through
+   constants, boolean functions evaluated.  The obligations compare CONDITIONS BY TRUTH TABLE
+   with the model's conditions (Text/FullTie.v: [specs_reflect_model] says they are the model's),
+   formats as sets, and select rows by what they emit, so that nested ifs / && chains / reordered
+   conjuncts / helpers / named constants / switch for || give the same verdict. *)
 Theorem C08_render_tables :
-  render_formats = [source_entry "%s" "%s"; source_entry "%s" "%s"; hidden_entry "%s"; source_entry "%s" "%s"] /\
-  write_formats = [source_entry "%s" "%s"] /\
-  write_path = ["strings.Join([]string{outputDir, name}, string(filepath.Separator))"] /\
-  create_or_open = ["if appendData { return os.OpenFile(filename, os.O_APPEND|os.O_WRONLY, 0600) }"; "return os.Create(filename)"] /\
-  hide_secret_condition = "hideSecret && m.Head.Kind == ""Secret"" && m.Head.Version == ""v1""" /\
-  notes_file_condition = "strings.HasSuffix(k, notesFileSuffix)" /\
-  notes_selected_condition = "subNotes || (k == path.Join(ch.Name(), ""templates"", notesFileSuffix))" /\
-  notes_less = ["ci, cj := strings.Count(notesKeys[i], ""/""), strings.Count(notesKeys[j], ""/"")";
-                "if ci != cj { return ci < cj }"; "return notesKeys[i] < notesKeys[j]"] /\
-  include_crds_condition = "includeCrds" /\
-  output_dir_conditions = ["outputDir == """""; "outputDir == """""] /\
-  post_render_calls = ["pr.Run(b)"] /\
-  crd_file_condition = "strings.HasPrefix(f.Name, ""crds/"") && hasManifestExtension(f.Name)" /\
-  crd_filename = "filepath.Join(ch.ChartFullPath(), f.Name)" /\
-  manifest_extension_test = "strings.EqualFold(ext, "".yaml"") || strings.EqualFold(ext, "".yml"") || strings.EqualFold(ext, "".json"")".
+  render_rows_ok render_rows = true /\
+  bequiv notes_less notes_less_spec = true /\
+  write_rows_ok write_rows = true /\
+  crd_rows_ok crd_rows = true /\
+  crd_filename = "filepath.Join($recv.ChartFullPath(), $elem.Name)".
 Proof. repeat split; vm_compute; reflexivity. Qed.
 Print Assumptions C08_render_tables.
 
-(* the guard and the dry-run return that [applied] transcribes: order of the top-level
-   statements, the isDryRun conditions, and what install / upgrade pass to renderResources
-   (upgrade: no output directory, no CRDs) *)
+(* the specifications used above are the model's own conditions *)
+Theorem C08_render_specs_are_the_model :
+  forall (o : opts) (m : manifest) (k : string),
+    let env := env_render (is_empty (o_output_dir o)) (o_sub_notes o) (o_include_crds o) false (o_hide_secret o)
+                 (String.eqb (h_kind (m_head m)) "Secret") (String.eqb (h_version (m_head m)) "v1")
+                 (is_notes k) (String.eqb k (main_notes_key o)) in
+    beval env hidden_spec = Some (is_empty (o_output_dir o) && (o_hide_secret o && is_secret_v1 (m_head m))) /\
+    beval env plain_spec = Some (is_empty (o_output_dir o) && negb (o_hide_secret o && is_secret_v1 (m_head m))) /\
+    beval env file_spec = Some (negb (is_empty (o_output_dir o))) /\
+    beval env crd_buffer_spec = Some (o_include_crds o && is_empty (o_output_dir o)) /\
+    beval env notes_spec = Some (notes_selected o k) /\
+    beval env notes_delete_spec = Some (is_notes k).
+Proof. exact specs_reflect_model. Qed.
+Print Assumptions C08_render_specs_are_the_model.
+
+(* the hide-secret guard, read semantically: isDryRun evaluated (an || chain, a switch, early
+   returns give equivalent expressions); over DryRun / DryRunOption / HideSecret, control reaches
+   renderResources iff the guard does not reject, and reaches a call that applies the release
+   (performInstall*, KubeClient.Create, Releases.Create) only if moreover it is not a dry run —
+   whatever the order or nesting of the statements; install and upgrade pass their own fields
+   (upgrade: no output directory, no CRDs, no release-name directory) *)
 Theorem C08_hide_secret_guard_tables :
-  install_skeleton = ["hide-guard"; "render"; "dry-run-return"; "perform"] /\
-  upgrade_skeleton = ["hide-guard"; "render"] /\
-  install_is_dry_run = "i.DryRun || i.DryRunOption == ""client"" || i.DryRunOption == ""server"" || i.DryRunOption == ""true""" /\
-  upgrade_is_dry_run = "u.DryRun || u.DryRunOption == ""client"" || u.DryRunOption == ""server"" || u.DryRunOption == ""true""" /\
-  install_render_args = ["chrt"; "valuesToRender"; "i.ReleaseName"; "i.OutputDir"; "i.SubNotes"; "i.UseReleaseName";
-                         "i.IncludeCRDs"; "i.PostRenderer"; "interactWithRemote"; "i.EnableDNS"; "i.HideSecret"] /\
-  upgrade_render_args = ["chart"; "valuesToRender"; """"""; """"""; "u.SubNotes"; "false"; "false"; "u.PostRenderer";
-                         "interactWithRemote"; "u.EnableDNS"; "u.HideSecret"].
-Proof. repeat split; reflexivity. Qed.
+  bequiv install_is_dry_run dry_spec = true /\ bequiv upgrade_is_dry_run dry_spec = true /\
+  bequiv install_render_reach render_reach_spec = true /\
+  bequiv install_apply_reach apply_reach_spec = true /\
+  bequiv upgrade_render_reach render_reach_spec = true /\
+  passed install_render_args = ["$recv.ReleaseName"; "$recv.OutputDir"; "$recv.SubNotes"; "$recv.UseReleaseName";
+                                "$recv.IncludeCRDs"; "$recv.PostRenderer"; "$recv.HideSecret"] /\
+  passed upgrade_render_args = [""""""; """"""; "$recv.SubNotes"; "false"; "false"; "$recv.PostRenderer"; "$recv.HideSecret"].
+Proof. repeat split; vm_compute; reflexivity. Qed.
 Print Assumptions C08_hide_secret_guard_tables.
+
+Theorem C08_guard_specs_are_the_model :
+  forall (f : run_flags) (m : string),
+    beval (env_flags f) dry_spec = Some (is_dry_run f) /\
+    beval (env_flags f) render_reach_spec = Some (negb (negb (is_dry_run f) && rf_hide_secret f)) /\
+    beval (env_flags f) apply_reach_spec = Some (match applied f m with Some _ => true | None => false end).
+Proof. exact guard_specs_reflect_model. Qed.
+Print Assumptions C08_guard_specs_are_the_model.
 
 (* ---- non-vacuity: a chart with CRDs in the root and a subchart, a hidden v1 Secret, a Secret
    of another version, a hook Secret, notes at two depths ---------------------------------------- *)
